@@ -25,9 +25,15 @@ let rec parse = function
   | "mr" :: f :: h :: r -> MkRecv (n f, n h) :: parse r
   | "po" :: f :: w :: r -> Poll (n f, n w) :: parse r
   | "df" :: f :: r -> DropF (n f) :: parse r
+  | "tsb" :: h :: k :: r -> TrySendBatch (false, n h, n k) :: parse r
+  | "tsm" :: h :: k :: r -> TrySendBatch (true, n h, n k) :: parse r
+  | "trb" :: h :: k :: r -> TryRecvBatch (false, n h, n k) :: parse r
+  | "trm" :: h :: k :: r -> TryRecvBatch (true, n h, n k) :: parse r
   | t :: _ -> failwith ("bad op token " ^ t)
 
 let b2s b = if b then "1" else "0"
+
+let ids l = String.concat "" (List.map (fun x -> " " ^ string_of_int (i x)) l)
 
 let show_res = function
   | ROk -> "ok"
@@ -54,6 +60,12 @@ let show_res = function
   | RObs (l, e, f, c, cl) ->
       Printf.sprintf "o %d %s %s %d %s" (i l) (b2s e) (b2s f) (i c) (b2s cl)
   | RPanic -> "PANIC"
+  | RBOk k -> "ok " ^ string_of_int (i k)
+  | RBErr (sent, cl, un) -> "err " ^ string_of_int (i sent) ^ (if cl then " closed" else " full") ^ ids un
+  | RMOk (k, rest) -> "ok " ^ string_of_int (i k) ^ ids rest
+  | RMClosed rest -> "closed" ^ ids rest
+  | RVals l -> "v" ^ ids l
+  | RNVals l -> "n " ^ string_of_int (List.length l) ^ ids l
 
 let show_out (o : out) =
   let w = List.map (fun x -> " w" ^ string_of_int (i x)) o.o_wakes in
